@@ -261,6 +261,17 @@ class Body:
                     st.append(s)
         return seen
 
+    def reach_v(self, start=0, avoid_blocks=(), avoid_edges=(), via=None, avoid_after=()):
+        """variant-sensitive reach from the function entry; with via=<block>: blocks reachable after passing through it.
+        Falls back to plain reachability if the state space is too large."""
+        try:
+            r, rv = VariantReach(self).explore(0, avoid_blocks, avoid_edges, via, avoid_after)
+            return rv if via is not None else r
+        except Undecidable:
+            if via is not None:
+                return self.reach(via, set(avoid_blocks) | (set(avoid_after) - {via}), avoid_edges)
+            return self.reach(0, avoid_blocks, avoid_edges)
+
     def switches(self):
         for b, bl in enumerate(self.blocks):
             t = bl["term"]
@@ -300,6 +311,23 @@ class Body:
                 if sw:
                     return b, sw[0], sw[1].get(0), sw[1].get(1)
         return None
+
+    def error_returned(self, call_bb):
+        """the failure value of the call ending call_bb (possibly after await / `?` / a helper's return) is what some
+        `?` of this function returns: a from_residual writing the function's own return place derives from that call"""
+        for bb, t in self.calls_to(r"FromResidual::from_residual$"):
+            if t["dest"]["l"] != 0 or t["dest"]["p"]:
+                continue
+            o = self.origin(t["args"][0])
+            if any(c[4] == call_bb for c in self.may_calls(o)):
+                return True
+        # `match x { Err(e) => return Err(e) }` form
+        for i, bl in enumerate(self.blocks):
+            for st in bl["stmts"]:
+                if st["k"] == "assign" and st["place"]["l"] == 0 and not st["place"]["p"] and st["rv"]["k"] == "agg" and st["rv"].get("vname") == "Err":
+                    if any(c[4] == call_bb for o in st["rv"]["ops"] for c in self.may_calls(self.origin(o))):
+                        return True
+        return False
 
     def ret_kinds(self, start):
         """how the function can return when control is at `start`: subset of {'Ok','Err','residual','call:<def>','other','diverge'}"""
@@ -543,6 +571,56 @@ class Body:
             return self.origin(rv["x"])
         return ("rv", rv["k"])
 
+    def phi_alternatives(self, local):
+        """origins of every definition of a multiply-assigned local"""
+        out = []
+        for d in self.defs().get(local, []):
+            if d[0] == "arg":
+                out.append(("arg", d[1]))
+            elif d[0] == "call":
+                t = d[2]
+                dd, rd, ga, fn = callee(t)
+                out.append(("call", dd, rd, [self.origin(a) for a in t["args"]], d[1], ga))
+            elif d[0] == "stmt" and not d[3]["place"]["p"]:
+                rv = d[3]["rv"]
+                if rv["k"] == "use":
+                    out.append(self.origin(rv["x"]))
+                elif rv["k"] == "agg":
+                    out.append(("agg", (rv["agg"], rv.get("adt"), rv.get("variant"), rv.get("vname")) if rv["agg"] == "adt" else (rv["agg"],), [self.origin(o) for o in rv["ops"]]))
+                elif rv["k"] == "ref":
+                    out.append(("ref", self.origin(rv["place"])))
+                else:
+                    out.append(("rv", rv["k"]))
+        return out
+
+    def may_calls(self, o, limit=200):
+        """all call nodes an origin may derive from, looking through multiply-assigned locals (phis)"""
+        seen_phi = set()
+        out = []
+        work = [o]
+        n = 0
+        while work and n < limit:
+            x = work.pop()
+            n += 1
+            if isinstance(x, tuple):
+                if x and x[0] == "call":
+                    out.append(x)
+                if x and x[0] == "phi" and isinstance(x[1], int):
+                    if x[1] not in seen_phi:
+                        seen_phi.add(x[1])
+                        work.extend(self.phi_alternatives(x[1]))
+                    continue
+                for y in x:
+                    if isinstance(y, (tuple, list)):
+                        work.append(y)
+            elif isinstance(x, list):
+                work.extend(x)
+        return out
+
+    def may_mention(self, o, pattern):
+        r = re.compile(pattern)
+        return any(r.search(c[1] or "") or r.search(c[2] or "") for c in self.may_calls(o))
+
     # ------------------------------------------------------------ path/event summaries
     def event_paths(self, classify, start=0, limit=4000, stop_at_back_edge=True, edge_classify=None):
         """Set of event sequences (tuples) over all acyclic paths start->Return.
@@ -781,3 +859,221 @@ def inline_calls(body, want, depth=2):
     if not changed:
         return body
     return Body(body.name + "#inlined", raw, mir)
+
+
+# ---------------------------------------------------------------------------- variant-sensitive reachability
+# A small path-sensitive dataflow over "which enum variant does this local hold": facts are learned from aggregates,
+# from_residual / Try::branch / Option::as_ref results and from taking a SwitchInt edge on a discriminant; they prune
+# later switches on the same value.  Used so that a helper's `return Ok(None)` is not confused with `Ok(Some(..))`
+# after the helper has been inlined.  State space is (block, facts, passed-via flag), explored breadth first with a cap.
+
+class VariantReach:
+    MAXSTATES = 60000
+
+    def __init__(self, body):
+        self.b = body
+
+    # facts: dict local -> nested fact ('v', variant index, {field index: fact})
+    @staticmethod
+    def _freeze(f):
+        if f is None:
+            return None
+        return ("v", f[1], tuple(sorted((k, VariantReach._freeze(v)) for k, v in f[2].items())))
+
+    @staticmethod
+    def _key(facts):
+        return tuple(sorted((l, VariantReach._freeze(f)) for l, f in facts.items()))
+
+    def _fact_of_place(self, facts, p):
+        """fact of a place: local, optionally through (downcast v).field i projections"""
+        f = facts.get(p["l"])
+        proj = [x for x in p["p"] if x != "deref"]
+        i = 0
+        while i < len(proj):
+            x = proj[i]
+            if isinstance(x, dict) and "downcast" in x:
+                if f is None or f[1] != x["downcast"]:
+                    return None
+                i += 1
+                continue
+            if isinstance(x, dict) and "f" in x:
+                if f is None:
+                    return None
+                f = f[2].get(x["f"])
+                i += 1
+                continue
+            return None
+        return f
+
+    def _op_fact(self, facts, op):
+        p = op.get("copy") or op.get("move")
+        if p is None:
+            return None
+        return self._fact_of_place(facts, p)
+
+    def _step_block(self, bb, facts, alias, dvals):
+        b = self.b
+        bl = b.blocks[bb]
+        for st in bl["stmts"]:
+            if st["k"] != "assign":
+                continue
+            pl = st["place"]
+            rv = st["rv"]
+            if pl["p"]:
+                # partial write invalidates the base
+                facts.pop(pl["l"], None)
+                continue
+            l = pl["l"]
+            facts.pop(l, None)
+            alias.pop(l, None)
+            dvals.pop(l, None)
+            k = rv["k"]
+            if k == "agg" and rv["agg"] == "adt":
+                sub = {}
+                for i, o in enumerate(rv["ops"]):
+                    f = self._op_fact(facts, o)
+                    if f is not None:
+                        sub[i] = f
+                facts[l] = ("v", rv["variant"], sub)
+            elif k == "use":
+                f = self._op_fact(facts, rv["x"])
+                if f is not None:
+                    facts[l] = f
+                p = rv["x"].get("copy") or rv["x"].get("move")
+                if p is not None and not [x for x in p["p"] if x != "deref"]:
+                    alias[l] = p["l"]
+                if p is not None and not p["p"] and p["l"] in dvals:
+                    dvals[l] = dvals[p["l"]]
+            elif k == "ref":
+                p = rv["place"]
+                if not [x for x in p["p"] if x != "deref"]:
+                    alias[l] = p["l"]
+                    if p["l"] in facts:
+                        facts[l] = facts[p["l"]]
+            elif k == "discr":
+                p = rv["place"]
+                f = self._fact_of_place(facts, p)
+                if f is not None:
+                    dvals[l] = ("known", f[1])
+                else:
+                    base = p["l"]
+                    if not [x for x in p["p"] if x != "deref"]:
+                        dvals[l] = ("of", base)
+        t = bl["term"]
+        if t and t["k"] == "call":
+            d, rd, ga, fn = callee(t)
+            dest = t["dest"]
+            if not dest["p"]:
+                l = dest["l"]
+                facts.pop(l, None)
+                alias.pop(l, None)
+                dvals.pop(l, None)
+                name = d or ""
+                if name.endswith("FromResidual::from_residual"):
+                    # Result / Option residuals: always the failure variant (Err = 1 / None = 0); Poll<Result> not modelled
+                    ty = t.get("dty") or ""
+                    if ty.startswith("core::result::Result"):
+                        facts[l] = ("v", 1, {})
+                    elif ty.startswith("core::option::Option"):
+                        facts[l] = ("v", 0, {})
+                elif name.endswith("Try::branch") and t["args"]:
+                    f = self._op_fact(facts, t["args"][0])
+                    aty = (t.get("argtys") or [""])[0]
+                    if f is not None and aty.startswith("core::result::Result"):
+                        # Ok(x) -> Continue(x) (0), Err(e) -> Break(Err(e)) (1)
+                        facts[l] = ("v", 0, {0: f[2][0]} if 0 in f[2] else {}) if f[1] == 0 else ("v", 1, {})
+                    elif f is not None and aty.startswith("core::option::Option"):
+                        facts[l] = ("v", 0, {0: f[2][0]} if 0 in f[2] else {}) if f[1] == 1 else ("v", 1, {})
+                elif re.search(r"Option::<T>::(as_ref|as_mut|as_deref)$", name) and t["args"]:
+                    p = t["args"][0].get("copy") or t["args"][0].get("move")
+                    f = self._op_fact(facts, t["args"][0])
+                    if f is not None:
+                        facts[l] = ("v", f[1], {})
+                    if p is not None and not p["p"]:
+                        alias[l] = p["l"]
+            # a call taking &mut x may change x
+            for a, ty in zip(t["args"], t.get("argtys") or []):
+                if ty.startswith("&mut"):
+                    p = a.get("copy") or a.get("move")
+                    if p is not None and not p["p"]:
+                        tgt = alias.get(p["l"])
+                        if tgt is not None:
+                            facts.pop(tgt, None)
+        return t
+
+    def _learn(self, facts, alias, local, variant):
+        seen = set()
+        while local is not None and local not in seen:
+            seen.add(local)
+            old = facts.get(local)
+            if old is not None and old[1] != variant:
+                return False
+            if old is None:
+                facts[local] = ("v", variant, {})
+            local = alias.get(local)
+        return True
+
+    def explore(self, start=0, avoid_blocks=(), avoid_edges=(), via=None, avoid_after=()):
+        """set of blocks reachable from `start` (facts empty); if via is given, the second result is the set of blocks
+        reachable after having passed through block `via`"""
+        b = self.b
+        avoid_blocks = set(avoid_blocks)
+        avoid_edges = set(avoid_edges)
+        avoid_after = set(avoid_after)
+        seen = set()
+        reached, reached_via = set(), set()
+        work = [(start, {}, {}, {}, via is None or start == via)]
+        n = 0
+        while work:
+            bb, facts, alias, dvals, passed = work.pop()
+            if bb in avoid_blocks or (passed and bb in avoid_after and bb != via):
+                continue
+            key = (bb, self._key(facts), tuple(sorted(alias.items())), tuple(sorted(dvals.items())), passed)
+            if key in seen:
+                continue
+            seen.add(key)
+            n += 1
+            if n > self.MAXSTATES:
+                raise Undecidable("variant-sensitive exploration of %s exceeds %d states" % (b.name, self.MAXSTATES))
+            reached.add(bb)
+            if passed:
+                reached_via.add(bb)
+            facts, alias, dvals = dict(facts), dict(alias), dict(dvals)
+            t = self._step_block(bb, facts, alias, dvals)
+            if t is None:
+                continue
+            succs = b.succs()[bb]
+            if t["k"] == "switch":
+                p = t["discr"].get("copy") or t["discr"].get("move")
+                dv = dvals.get(p["l"]) if p is not None and not p["p"] else None
+                tg = [(int(v), tb) for v, tb in t["targets"]]
+                listed = [v for v, _ in tg]
+                for s in set(succs):
+                    if (bb, s) in avoid_edges:
+                        continue
+                    vals = [v for v, tb in tg if tb == s]
+                    is_other = s == t["otherwise"]
+                    f2, a2, d2 = facts, alias, dvals
+                    if dv is not None and dv[0] == "known":
+                        ok = (dv[1] in vals) or (is_other and dv[1] not in listed)
+                        if not ok:
+                            continue
+                    elif dv is not None and dv[0] == "of":
+                        if len(vals) == 1 and not (is_other and len(set(listed)) > 1):
+                            f2 = dict(facts)
+                            if not self._learn(f2, alias, dv[1], vals[0]):
+                                continue
+                        elif is_other and not vals:
+                            # exactly one unlisted variant can be inferred only when the enum has two variants
+                            if len(listed) == 1 and listed[0] in (0, 1):
+                                f2 = dict(facts)
+                                if not self._learn(f2, alias, dv[1], 1 - listed[0]):
+                                    continue
+                    nxt_passed = passed or (via is not None and s == via)
+                    work.append((s, f2, a2, d2, nxt_passed))
+            else:
+                for s in succs:
+                    if (bb, s) in avoid_edges:
+                        continue
+                    work.append((s, facts, alias, dvals, passed or (via is not None and s == via)))
+        return reached, reached_via
